@@ -191,6 +191,7 @@ type Parser struct {
 	currFuncName        string              // Unprefixed name of the function which is currently parsed.
 	currFuncReturnTypes []ValueType         // Return types of the function which is currently parsed.
 	usedFuncs           map[string][]string // Stores which function (key) calls which functions (values).
+	importing           []string            // Stores the files which are currently being imported (to detect import cycles).
 }
 
 func New() Parser {
@@ -704,7 +705,12 @@ func (p *Parser) evaluateImports(ctx context) ([]Statement, error) {
 				// If it's not a standard library path, an alias must be provided.
 				return nil, fmt.Errorf(`an alias must be provided for the local import "%s" in "%s"`, path, p.path)
 			}
+			// Make sure files do not import each other (or themselves).
+			if importChain := append(slices.Clone(p.importing), p.path); slices.Contains(importChain, filepath.Clean(absPath)) {
+				return nil, fmt.Errorf(`import cycle not allowed: "%s" imports "%s"`, p.path, absPath)
+			}
 			importParser := New()
+			importParser.importing = append(slices.Clone(p.importing), p.path)
 			importedProg, err := importParser.parse(absPath, true)
 
 			if err != nil {
